@@ -571,6 +571,9 @@ fn resolve(raw: Vec<RawNode>, root_sel: Vec<u16>, shape: u8, profile: &ForestPro
     // fixed type per unknown (class, property) pair
     let mut unknown_types: HashMap<(String, String), VariantType> = HashMap::new();
     let mut uid_seen: HashSet<GVal> = HashSet::new();
+    // the nil id is what the binary format's default column gives instances that lack the
+    // property, so an explicit nil would collide with them inside the reader's DOM (C12's subject)
+    uid_seen.insert(GVal::UniqueId(0, 0, 0));
     let mut ser_owner: HashMap<(String, String), String> = HashMap::new();
 
     for (i, r) in raw.iter().enumerate() {
